@@ -217,7 +217,10 @@ impl Harness for C01 {
         }
         // 4. structured families
         let nmax = if t { 40 } else { 12 };
-        for n in 1..=nmax {
+        // quick tier: every order up to 12, plus a few orders well beyond (iteration limits, block
+        // sizes and sweep counters only show at larger orders)
+        let orders: Vec<usize> = if t { (1..=40).collect() } else { (1..=12).chain([16usize, 20, 24, 32, 40]).collect() };
+        for n in orders {
             for f in gen::FAMILIES {
                 if n >= f.min_n && n <= f.max_n {
                     jobs.push(Job::new(format!("fam-{}-n{}", f.name, n), json!({"kind": "fam", "fam": f.name, "n": n, "scales": scales})));
@@ -257,7 +260,7 @@ impl Harness for C01 {
                 "lattice_general": format!("every m x n matrix, 1<=m,n<=3, over {:?}; 4x1,1x4 over the same; 4x2,2x4 over {:?}; 4x4 over {{0,1}} and {{1,-1}} (scale 1){}", alpha, if t { S5 } else { S3 }, if t { "; 4x3, 3x4 over {0,1,-1}; 4x4 over {0,1,-1} (scale 1); 4x4 upper Hessenberg over {0,1,-1} at the other scales" } else { "; 4x3, 3x4 over {0,1}" }),
                 "lattice_symmetric": format!("every symmetric n x n, n<=3, off-diagonal over {:?}, diagonal over {:?}; {}", S5, D6, if t { "4x4 off-diagonal {0,1,-1} x diagonal {0,1,-1,2,3,4} at all scales; 4x4 off-diagonal {0,1,-1,2,-2} x the same diagonal (scale 1); 5x5 off-diagonal {0,1,-1} diagonal {1,2,0} (scale 1, f64)" } else { "4x4 off-diagonal {0,1,-1} diagonal {1,2,0} (scale 1)" }),
                 "gram": "for every full-column-rank lattice matrix G also the SPD matrix G^T G (Cholesky clauses only)",
-                "families": format!("{} structured families, n = 1..{}, every variant, aspects sq/t1/t5/t2n/w1/w5, every scale, both widths", gen::FAMILIES.len(), nmax),
+                "families": format!("{} structured families, n = 1..{} (quick: also 16, 20, 24, 32, 40), every variant, aspects sq/t1/t5/t2n/w1/w5, every scale, both widths", gen::FAMILIES.len(), nmax),
                 "right_hand_sides": "B = A*X0, X0 over {0,1,-1} patterns with 1..4 columns (full catalogue: 3 patterns per width; 'pw': one per width; 'two': p=1 and p=3), each also with a component outside range(A) for tall / rank-deficient A",
                 "conditioning": "clauses demanded only for cond_2(A) <= 1e6 (oracle one-sided Jacobi); cond-sensitive clauses additionally only when max(m,n)*eps_T*cond <= 1/64",
             }),
